@@ -61,8 +61,8 @@ def build(repo=None):
         for n in mod.tree.body:
             if isinstance(n, ast.Assign) and len(n.targets) == 1 and getattr(n.targets[0], "id", None) == r:
                 v = n.value
-                good = isinstance(v, ast.Call) and ast.unparse(v.func) in ("threading.local", "contextvars.ContextVar") or good and False
-                if not (isinstance(v, ast.Call) and ast.unparse(v.func) in ("threading.local", "contextvars.ContextVar")):
+                good = isinstance(v, ast.Call) and ast.unparse(v.func) in ("threading.local",) or good and False
+                if not (isinstance(v, ast.Call) and ast.unparse(v.func) in ("threading.local",)):
                     good = False
         ob(f"root:{r}-is-thread-local", good)
     # no other module-level mutable state is introduced
